@@ -25,7 +25,7 @@ Produce up to FOUR different changes to the library source (files under lorawan-
  C. a change of behaviour in neighbouring functionality the statement does not cover at all (another feature, another message type, a getter, documentation of a default that the statement does not fix);
  D. a legitimate stricter behaviour: the device refuses something it used to accept where the statement allows refusal (for example rejecting a MAC request that the statement does not oblige it to accept, answering so), or does some extra safe work.
 For each change on its own:
-1. the workspace still compiles: `cd @ROOT@/@ID@ && cargo build --workspace --offline`, and the crates also build with their optional features: `cargo build -p lorawan-device --offline --features serde,verif-hooks` and `cargo build -p lora-phy --offline --features lorawan-radio,verif-hooks` (the `verif-hooks` feature offers read-only accessors `verif_snapshot()` / `verif_radio_mode()` etc.; keep them compiling and keep them reporting the true state if you change a representation);
+1. the workspace still compiles: `cd @ROOT@/@ID@ && cargo build --workspace --offline`, and the crates also build with their optional features: `cargo build -p lora-phy -p lorawan-device --offline --features lora-phy/lorawan-radio,lora-phy/verif-hooks,lorawan-device/serde,lorawan-device/verif-hooks` (the `verif-hooks` feature offers read-only accessors `verif_snapshot()` / `verif_radio_mode()` etc.; keep them compiling and keep them reporting the true state if you change a representation);
 2. the existing test suite still passes, unedited: `cd @ROOT@/@ID@ && cargo nextest run --workspace --no-fail-fast --offline` (319 tests; one Class C test is timing-sensitive under machine load — re-run once before concluding that you broke it);
 3. the property statement — every clause of it, for every input / history / configuration it quantifies over — still holds. Re-read the statement clause by clause against your change and write down why each clause is unaffected. If you are not sure, do not submit that change. A change that makes the property false in some corner is a failure of this task.
 4. the change is realistic: something that could appear in a pull request with a sensible commit message. Not a no-op (whitespace, comments, renames only) — it must change generated code or observable behaviour.
